@@ -14,6 +14,7 @@ import (
 	"net"
 	"runtime"
 	"sort"
+	"strconv"
 	"strings"
 	"testing/synctest"
 	"time"
@@ -21,6 +22,7 @@ import (
 	"github.com/libp2p/go-libp2p/core/network"
 	"github.com/libp2p/go-libp2p/internal/verifh"
 	ma "github.com/multiformats/go-multiaddr"
+	manet "github.com/multiformats/go-multiaddr/net"
 )
 
 type c05D struct {
@@ -30,6 +32,10 @@ type c05D struct {
 	drets   [][2]int64
 	ids     []int64
 	parkCh  chan struct{}
+	kinds   map[int64]int
+	forms   map[int64]int
+	alines  [][]int64 // addrsForDial cases (wire kind 6) recorded by call
+	ipIdx   map[string]int64
 }
 
 func (h *c05D) observe() {
@@ -111,7 +117,8 @@ func (h *c05D) call(c int64, sim, fdir bool) {
 	armed := h.gater.park
 	h.gater.park = nil
 	h.gater.mu.Unlock()
-	good, _, aerr := h.s.addrsForDial(ctx, h.p)
+	good, addrErrs, aerr := h.s.addrsForDial(ctx, h.p)
+	h.recordAddrs(fdir, good, addrErrs)
 	var rk []network.AddrDelay
 	if aerr == nil {
 		in := append([]ma.Multiaddr{}, good...)
@@ -264,9 +271,33 @@ func c05DialPeerRandom(out *verifh.Out, r *verifh.Rand, size int) {
 	var kinds []int
 	var dls []time.Duration
 	var forms []int
-	aliased := false
+	var ports []int
+	aliased, paired := false, false
+	// a swarm with a subset of the transports (one case in three)
+	if r.Chance(1, 3) {
+		h.direct.caps = (1 + r.Intn(15)) << 1
+		out.Cover("dialpeer.cases_with_transport_subset")
+	}
 	for i := 1; i <= n; i++ {
-		kinds = append(kinds, []int{0, 0, 1, 2, 2, 3, 4, 5, 6, 7, 7, 8, 9}[r.Intn(13)])
+		k := []int{0, 0, 1, 2, 2, 3, 4, 5, 6, 7, 7, 8, 9}[r.Intn(13)]
+		pt := 0
+		// the fallback address of the previous one on the same ip:port: /ws next to /tcp, /webtransport next to /quic-v1
+		if i > 1 && r.Chance(1, 3) {
+			switch kinds[i-2] {
+			case 0:
+				k, pt, paired = 10, i-1, true
+				if ports[i-2] != 0 {
+					pt = ports[i-2]
+				}
+			case 2:
+				k, pt, paired = 11, i-1, true
+				if ports[i-2] != 0 {
+					pt = ports[i-2]
+				}
+			}
+		}
+		kinds = append(kinds, k)
+		ports = append(ports, pt)
 		dls = append(dls, c05Delays[r.Intn(len(c05Delays))])
 		// half of the addresses are known literally only; the others in a random set of forms
 		f := 1
@@ -276,7 +307,10 @@ func c05DialPeerRandom(out *verifh.Out, r *verifh.Rand, size int) {
 		}
 		forms = append(forms, f)
 	}
-	h.setAddrForms(kinds, dls, forms)
+	if paired {
+		out.Cover("dialpeer.cases_with_tcp_ws_or_quic_wt_on_one_port")
+	}
+	h.setAddrFormsPorts(kinds, dls, forms, ports)
 	if aliased {
 		out.Cover("dialpeer.cases_with_aliased_addresses")
 	}
@@ -342,7 +376,8 @@ func c05DialPeerRandom(out *verifh.Out, r *verifh.Rand, size int) {
 
 func newC05D(fdl, ppl int64) *c05D {
 	BackoffBase, BackoffMax = 24*time.Hour, 48*time.Hour
-	h := &c05D{c05W: newC05Swarm(), cancels: map[int64]context.CancelFunc{}, waiting: map[int64]bool{}}
+	h := &c05D{c05W: newC05Swarm(), cancels: map[int64]context.CancelFunc{}, waiting: map[int64]bool{},
+		kinds: map[int64]int{}, forms: map[int64]int{}, ipIdx: map[string]int64{}}
 	h.s.limiter = newDialLimiterWithParams(h.s.dialAddr, int(fdl), int(ppl))
 	h.line = []int64{5, fdl, ppl}
 	return h
@@ -373,14 +408,25 @@ func c05Dns4Form(a ma.Multiaddr) (ma.Multiaddr, string, net.IP) {
 }
 
 func (h *c05D) setAddrForms(kinds []int, delays []time.Duration, forms []int) {
+	h.setAddrFormsPorts(kinds, delays, forms, nil)
+}
+
+// ports[i] != 0: address i+1 uses the port of address ports[i] (an ip:port shared by a /tcp and a
+// /ws address, or by a /quic-v1 and a /webtransport address, when the kinds have the same ip)
+func (h *c05D) setAddrFormsPorts(kinds []int, delays []time.Duration, forms []int, ports []int) {
 	var as []ma.Multiaddr
 	var txt []string
 	suffix := ma.StringCast("/p2p/" + h.p.String())
 	for i, k := range kinds {
-		a := h.addr(int64(i+1), k)
+		port := int64(3000 + i + 1)
+		if ports != nil && ports[i] != 0 {
+			port = int64(3000 + ports[i])
+		}
+		a := h.addrPort(int64(i+1), k, port)
 		h.delays[string(a.Bytes())] = delays[i]
 		h.order[string(a.Bytes())] = i + 1
 		h.ids = append(h.ids, int64(i+1))
+		h.kinds[int64(i+1)] = k
 		f := 1
 		if forms != nil {
 			f = forms[i]
@@ -398,6 +444,7 @@ func (h *c05D) setAddrForms(kinds []int, delays []time.Duration, forms []int) {
 		if f == 0 {
 			f = 1
 		}
+		h.forms[int64(i+1)] = f
 		if f&1 != 0 {
 			as = append(as, a)
 		}
@@ -426,8 +473,74 @@ func (h *c05D) setAddrForms(kinds []int, delays []time.Duration, forms []int) {
 	synctest.Wait()
 }
 
+// one addrsForDial case (wire kind 6, /verif/coq/c05/SpecAddrs.v): the table of the addresses as
+// the harness built them, the peerstore entries by what they resolve to, and the answer
+func (h *c05D) recordAddrs(fdir bool, good []ma.Multiaddr, errs []TransportError) {
+	b := func(x bool) int64 {
+		if x {
+			return 1
+		}
+		return 0
+	}
+	line := []int64{6, b(fdir), int64(len(h.ids))}
+	for _, id := range h.ids {
+		a, k := h.addrs[id], h.kinds[id]
+		cls := c05Class(a)
+		grp := int64(0)
+		if ip, err := manet.ToIP(a); err == nil {
+			key := ip.String()
+			if _, ok := h.ipIdx[key]; !ok {
+				h.ipIdx[key] = int64(len(h.ipIdx) + 1)
+			}
+			ps, err := a.ValueForProtocol(ma.P_TCP)
+			if err != nil {
+				ps, _ = a.ValueForProtocol(ma.P_UDP)
+			}
+			pn, _ := strconv.Atoi(ps)
+			grp = h.ipIdx[key]*100000 + int64(pn)
+		}
+		tpt := k != 8 && (k == 7 || h.direct.caps == 0 || h.direct.caps&(1<<cls) != 0)
+		line = append(line, id, int64(cls), grp, b(tpt), b(k == 9), b(k == 7))
+	}
+	var ents [][]int64
+	var dnsaddr []int64
+	for _, id := range h.ids {
+		f := h.forms[id]
+		for _, bit := range []int{1, 2, 4} {
+			if f&bit != 0 {
+				ents = append(ents, []int64{id, b(bit == 2)})
+			}
+		}
+		for _, bit := range []int{8, 16, 32} {
+			if f&bit != 0 {
+				dnsaddr = append(dnsaddr, id, b(bit == 16))
+			}
+		}
+	}
+	if len(dnsaddr) > 0 {
+		ents = append(ents, dnsaddr)
+	}
+	line = append(line, int64(len(ents)))
+	for _, e := range ents {
+		line = append(line, int64(len(e)/2))
+		line = append(line, e...)
+	}
+	line = append(line, int64(len(good)))
+	for _, a := range good {
+		line = append(line, h.idOf(a))
+	}
+	line = append(line, int64(len(errs)))
+	for _, e := range errs {
+		line = append(line, h.idOf(e.Address))
+	}
+	h.alines = append(h.alines, line)
+}
+
 func (h *c05D) end(out *verifh.Out) {
 	out.Case(h.line)
+	for _, l := range h.alines {
+		out.Case(l)
+	}
 	h.stopped = true
 	h.s.Close()
 	h.s.peers.Close()
@@ -492,5 +605,21 @@ func c05DialPeerDnsaddrTwice(out *verifh.Out) {
 	h.advance(2 * time.Second)
 	h.finishCase()
 	out.Cover("dialpeer.dnsaddr_peer_dialed_twice")
+	h.end(out)
+}
+
+// A swarm that can dial WebSocket but not raw TCP (and WebTransport but not QUIC), a peer that
+// advertises both on one ip:port: the fallback address is dialed, the preferred one is reported.
+func c05DialPeerFallbackTransport(out *verifh.Out) {
+	h := newC05D(4, 4)
+	h.direct.caps = 1<<2 | 1<<4
+	h.setAddrFormsPorts([]int{0, 10, 2, 11}, []time.Duration{0, 0, 0, 0}, []int{1, 1, 1, 1}, []int{0, 1, 0, 3})
+	h.call(1, false, false)
+	h.advance(time.Second)
+	h.result(2, 0)
+	h.result(4, 1)
+	h.advance(2 * time.Second)
+	h.finishCase()
+	out.Cover("dialpeer.fallback_transport_only")
 	h.end(out)
 }
